@@ -46,6 +46,9 @@ const (
 	BTwoHelpers
 	BPanicBadStringer
 	BHelperFailNow
+	BLogrusPanic
+	BRecoverFailNow
+	BOwnCheckResults
 	NumBehaviours
 )
 
@@ -58,12 +61,13 @@ var BehaviourNames = []string{"pass", "Fail", "FailNow", "Error", "Errorf", "Fat
 	"panic(error-with-permissive-Is)", "panic(nil)", "panic(error-named-FailNow)", "panic([]int)", "panic(slice-typed error)", "panic(map)",
 	"Error(nil)", "Fatal(nil)", "FailNow-on-the-setup-handle", "require-on-the-setup-handle",
 	"panic(\"\")", "panic-in-helper-goroutine-guarded-by-CheckResults", "two-guarded-helpers-sharing-one-done-channel",
-	"panic(value-whose-String-panics)", "FailNow-in-helper-goroutine-guarded-by-CheckResults"}
+	"panic(value-whose-String-panics)", "FailNow-in-helper-goroutine-guarded-by-CheckResults",
+	"Logger().Panic", "FailNow-recovered-by-the-function-itself", "panic-under-the-function's-own-CheckResults"}
 
 // Stops reports whether the behaviour ends the function at that point.
 func Stops(kind int) bool {
 	switch kind {
-	case BPass, BFail, BError, BErrorf, BAssert, BHelperPanic, BTwoHelpers, BHelperFailNow:
+	case BPass, BFail, BError, BErrorf, BAssert, BHelperPanic, BTwoHelpers, BHelperFailNow, BRecoverFailNow, BOwnCheckResults:
 		return false
 	}
 	return true
@@ -198,6 +202,22 @@ func Behave(t *f1testing.T, kind int) {
 		}()
 		<-done
 		<-done
+	case BLogrusPanic:
+		// the logrus logger of the handle at its Panic level: logs and panics with a *logrus.Entry
+		t.Logger().Panic("planned logrus panic")
+	case BRecoverFailNow:
+		// the function swallows the unwinding of its own FailNow (a deferred recover in a helper of its own) and returns
+		// normally: the mark was made before the unwinding
+		func() {
+			defer func() { _ = recover() }()
+			t.FailNow()
+		}()
+	case BOwnCheckResults:
+		// the function guards a section of its own with CheckResults, the way f1 guards the whole of it
+		func() {
+			defer f1testing.CheckResults(t, nil)
+			panic("planned panic under the function's own CheckResults")
+		}()
 	case BOtherRequire:
 		if o := OtherHandle.Load(); o != nil {
 			o.Require().True(false, "planned failed require on the other handle")
